@@ -67,15 +67,17 @@ def make_source(rng):
         for col in rng.choice(vals.shape[1], size=k, replace=False):
             vals[:, col] = 0.0
             zero_pairs.add(frozenset((puid[iu[0][col]], puid[iu[1][col]])))
+    # 'mixed' / 'pmixed': a plain list holding numbers and strings side by side (session 1, 2, 'pilot'): every sample
+    # entry keeps the very value -- a number stays a number
     rdesc = {'uid': gen.wrap(ruid, cont), 'grp': gen.wrap([rl[i] for i in rg_idx], cont),
-             'extra': [f'x{u}' for u in ruid]}
+             'extra': [f'x{u}' for u in ruid], 'mixed': [(u if i % 2 else f'm{u}') for i, u in enumerate(ruid)]}
     pdesc = {'puid': gen.wrap(puid, cont), 'pgrp': gen.wrap([pl[i] for i in pg_idx], cont),
-             'pextra': [f'y{u}' for u in puid]}
+             'pextra': [f'y{u}' for u in puid], 'pmixed': [(u if i % 2 else f'm{u}') for i, u in enumerate(puid)]}
     src = RDMs(vals.copy(), rdm_descriptors=rdesc, pattern_descriptors=pdesc,
                dissimilarity_measure='test', descriptors={'exp': 1})
     meta = dict(n_rdm=n_rdm, n_cond=n_cond, rgk=rgk, pgk=pgk, lk=lk, cont=cont, ruid=ruid, puid=puid,
                 rgrp=[rl[i] for i in rg_idx], pgrp=[pl[i] for i in pg_idx], vals=vals, zero_pairs=zero_pairs,
-                derived=False)
+                derived=False, scale=1.0, rmixed=dict(zip(ruid, rdesc['mixed'])), pmixed=dict(zip(puid, pdesc['pmixed'])))
     if n_rdm >= 3 and n_cond >= 4 and rng.integers(3) == 0:
         # the source is itself the result of subset / subset_pattern: its library-managed 'index' descriptors keep
         # the positions in the larger object (not 0..n-1), as after any multi-step analysis
@@ -92,7 +94,7 @@ def make_source(rng):
 def expected_value(meta, r, pa, pb):
     if frozenset((pa, pb)) in meta['zero_pairs']:
         return 0.0
-    return r * 10000 + min(pa, pb) * 100 + max(pa, pb)
+    return (r * 10000 + min(pa, pb) * 100 + max(pa, pb)) * meta['scale']
 
 
 def check_sample(ctx, check, sig, sample, meta, rdm_sel, pat_sel, rdm_by, pat_by, wit):
@@ -124,6 +126,18 @@ def check_sample(ctx, check, sig, sample, meta, rdm_sel, pat_sel, rdm_by, pat_by
     # all descriptor values retained
     rg = dict(zip(meta['ruid'], meta['rgrp']))
     pg = dict(zip(meta['puid'], meta['pgrp']))
+    def same_value(x, y):
+        return isinstance(x, str) == isinstance(y, str) and x == y
+    for k, u in enumerate(ruid_s):
+        if not same_value(sample.rdm_descriptors['mixed'][k], meta['rmixed'][u]):
+            ctx.fail(check, dict(sig, what='rdm_descriptors'), f'mixed-type descriptor value of RDM uid {u} came back as '
+                     f'{sample.rdm_descriptors["mixed"][k]!r}, source has {meta["rmixed"][u]!r}', wit())
+            return False
+    for k, u in enumerate(puid_s):
+        if not same_value(sample.pattern_descriptors['pmixed'][k], meta['pmixed'][u]):
+            ctx.fail(check, dict(sig, what='pattern_descriptors'), f'mixed-type descriptor value of condition uid {u} came '
+                     f'back as {sample.pattern_descriptors["pmixed"][k]!r}, source has {meta["pmixed"][u]!r}', wit())
+            return False
     for k, u in enumerate(ruid_s):
         if ref._key(sample.rdm_descriptors['grp'][k]) != rg[u] or sample.rdm_descriptors['extra'][k] != f'x{u}':
             ctx.fail(check, dict(sig, what='rdm_descriptors'), f'descriptor values of RDM uid {u} changed', wit())
@@ -260,9 +274,12 @@ def run_config(ctx, tap):
         # sits where; the expected values are looked up by id, never by position)
         if d < n_draws - 1 and rng.integers(3) == 0:
             old_puid = list(meta['puid'])
-            how = gen.pick(rng, ['reorder', 'sort_by'])
+            how = gen.pick(rng, ['reorder', 'sort_by', 'rescale_values'])
             try:
-                if how == 'reorder':
+                if how == 'rescale_values':
+                    src.dissimilarities *= 2.0          # the user edits the values in place (exact in floating point)
+                    meta['scale'] *= 2.0
+                elif how == 'reorder':
                     src.reorder([int(i) for i in rng.permutation(meta['n_cond'])])
                 else:
                     src.sort_by(pextra='alpha')
